@@ -5,6 +5,12 @@ type nat =
 | O
 | S of nat
 
+val option_map : ('a1 -> 'a2) -> 'a1 option -> 'a2 option
+
+val fst : ('a1 * 'a2) -> 'a1
+
+val snd : ('a1 * 'a2) -> 'a2
+
 val length : 'a1 list -> nat
 
 val app : 'a1 list -> 'a1 list -> 'a1 list
@@ -24,6 +30,8 @@ val sub : nat -> nat -> nat
 
 module Nat :
  sig
+  val eqb : nat -> nat -> bool
+
   val leb : nat -> nat -> bool
 
   val ltb : nat -> nat -> bool
@@ -33,7 +41,13 @@ module Nat :
   val min : nat -> nat -> nat
  end
 
+val nth : nat -> 'a1 list -> 'a1 -> 'a1
+
 val nth_error : 'a1 list -> nat -> 'a1 option
+
+val last : 'a1 list -> 'a1 -> 'a1
+
+val removelast : 'a1 list -> 'a1 list
 
 val rev : 'a1 list -> 'a1 list
 
@@ -41,9 +55,19 @@ val concat : 'a1 list list -> 'a1 list
 
 val map : ('a1 -> 'a2) -> 'a1 list -> 'a2 list
 
+val flat_map : ('a1 -> 'a2 list) -> 'a1 list -> 'a2 list
+
+val fold_left : ('a1 -> 'a2 -> 'a1) -> 'a2 list -> 'a1 -> 'a1
+
 val fold_right : ('a2 -> 'a1 -> 'a1) -> 'a1 -> 'a2 list -> 'a1
 
 val existsb : ('a1 -> bool) -> 'a1 list -> bool
+
+val forallb : ('a1 -> bool) -> 'a1 list -> bool
+
+val filter : ('a1 -> bool) -> 'a1 list -> 'a1 list
+
+val find : ('a1 -> bool) -> 'a1 list -> 'a1 option
 
 val firstn : nat -> 'a1 list -> 'a1 list
 
@@ -79,6 +103,10 @@ module Pos :
 
   val eqb : positive -> positive -> bool
 
+  val iter_op : ('a1 -> 'a1 -> 'a1) -> positive -> 'a1 -> 'a1
+
+  val to_nat : positive -> nat
+
   val of_succ_nat : nat -> positive
  end
 
@@ -105,11 +133,23 @@ module Z :
 
   val compare : z -> z -> comparison
 
+  val leb : z -> z -> bool
+
   val ltb : z -> z -> bool
 
   val eqb : z -> z -> bool
 
+  val max : z -> z -> z
+
+  val min : z -> z -> z
+
+  val to_nat : z -> nat
+
+  val to_N : z -> n
+
   val of_nat : nat -> z
+
+  val of_N : n -> z
  end
 
 type cc =
@@ -244,6 +284,8 @@ module Tables :
     (groupkind * ((tc * tc) * ((n list * n list) * n list))) list
 
   val py_whitespace : n list
+
+  val dir_texnode : n list list
  end
 
 type cchar = { ch : n; cpos : z; ccat : cc }
@@ -356,11 +398,15 @@ val math_begin : mathkind -> str
 
 val math_end : mathkind -> str
 
+val math_name : mathkind -> str
+
 val math_tok_end : mathkind -> tc option
 
 val group_begin : groupkind -> str
 
 val group_end : groupkind -> str
+
+val group_name : groupkind -> str
 
 val group_tok_end : groupkind -> tc option
 
@@ -491,12 +537,548 @@ val parse_tokens : token list -> bool -> str list -> expr res
 
 val parse : str -> bool -> str list -> expr res
 
+val is_lf : n -> bool
+
+val line_breaks_from : n list -> z -> z list
+
+val line_breaks : n list -> z list
+
+val bisect_left : z list -> z -> nat
+
+val py_last : z list -> z
+
+val py_nth : z list -> z -> z
+
+val clo : n list -> z -> z * z
+
 val run_clo : z list -> z list
+
+type exn =
+| StopIteration0
+| IndexError
+| AssertionError0
+| AttributeError
+| OutOfFuel0
+
+type out =
+| OItem of z
+| ONone
+| OItems of z list
+| OBool of bool
+| OInt of z
+| OExc of exn
+
+type state = { items : z list; mat : nat; cursor : z }
+
+val init_state : z list -> state
+
+val queue : state -> z list
+
+val set_cursor : state -> z -> state
+
+val py_index : z list -> z -> out
+
+val norm_idx : z -> z option -> z -> z
+
+val py_slice : z list -> z option -> z option -> z list
+
+val next_raw : state -> state * out
+
+val bound_ok : z -> z option -> bool
+
+val advance : nat -> state -> z option -> state * exn option
+
+val advance_fuel : state -> nat
+
+val getitem_int : state -> z -> state * out
+
+val getitem_slice : state -> z option -> z option -> state * out
+
+val catch_index : (state * out) -> state * out
+
+val peek_int : state -> z -> state * out
+
+val peek_range : state -> z -> z -> state * out
+
+val truthy : out -> bool
+
+val has_next : state -> z -> state * out
+
+val forward_pos : state -> z -> state * out
+
+val backward_pos : state -> z -> state * out
+
+val forward : state -> z -> state * out
+
+val backward : state -> z -> state * out
+
+val is_prefix : z list -> z list -> bool
+
+val is_suffix : z list -> z list -> bool
+
+val starts_with0 : state -> z list -> state * out
+
+val ends_with : state -> z list -> state * out
+
+val pred : z -> z -> bool
+
+val pred_none : z -> bool
+
+val cond_holds : z -> out -> bool
+
+val scan :
+  nat -> state -> z -> z list -> z -> ((state * exn option) * z list) * z
+
+val scan_fuel : state -> nat
+
+val forward_until : state -> z -> state * out
+
+val list_eqb : z list -> z list -> bool
+
+val num_forward_until : state -> z -> state * out
+
+type op =
+| Next
+| HasNext of z
+| Peek of z
+| PeekR of z * z
+| Forward of z
+| Backward of z
+| Slice of z option * z option
+| Getitem of z
+| Startswith of z list
+| Endswith of z list
+| ForwardUntil of z
+| NumForwardUntil of z
+| Position
+
+val step : state -> op -> state * out
+
+val opt_of : z -> z -> z option
+
+val decode_ops : nat -> z list -> op list
+
+val exn_code : exn -> z
+
+val encode_out : out -> z list
+
+val run_enc : state -> op list -> z list
 
 val run_buf : z list -> z list
 
+type pstr = z list
+
+val pstr_eqb : pstr -> pstr -> bool
+
+val zlen : 'a1 list -> z
+
+val is_space_char : z -> bool
+
+val is_space : pstr -> bool
+
+val starts_with1 : pstr -> pstr -> bool
+
+val ends_with0 : pstr -> pstr -> bool
+
+val py_join : pstr list -> pstr
+
+val norm_insert : z -> z -> z
+
+val insert_at : nat -> 'a1 -> 'a1 list -> 'a1 list
+
+val py_insert : z -> 'a1 -> 'a1 list -> 'a1 list
+
+val py_index0 : ('a1 -> bool) -> 'a1 list -> nat option
+
+val py_remove : ('a1 -> bool) -> 'a1 list -> 'a1 list option
+
+val pop_at : nat -> 'a1 list -> ('a1 * 'a1 list) option
+
+val py_pop : z -> 'a1 list -> ('a1 * 'a1 list) option
+
+val py_getitem : z -> 'a1 list -> 'a1 option
+
+val clamp_index : z -> z -> z
+
+val py_slice0 : z option -> z option -> 'a1 list -> 'a1 list
+
+type group = bool * pstr
+
+val open_of : bool -> z
+
+val close_of : bool -> z
+
+val render : group -> pstr
+
+type item =
+| IG of group
+| IW of pstr
+
+val render_item : item -> pstr
+
+val item_eqb : item -> item -> bool
+
+type arg =
+| AG of group
+| AS of pstr
+
+val parse_kind : bool -> pstr -> group option
+
+val parse_group : pstr -> group option
+
+val coerce : arg -> item option
+
+type state0 = group list * item list
+
+type out0 =
+| ONone0
+| OVal of item
+| OArgs of state0
+| OBool0 of bool
+| ETypeError
+| EValueError
+| EIndexError
+
+type op0 =
+| OpAppend of arg
+| OpExtend of arg list
+| OpInsert of z * arg
+| OpRemove of arg
+| OpPop of z option
+| OpReverse
+| OpClear
+| OpGet of z
+| OpSlice of z option * z option
+| OpContains of arg
+
+val empty_state : state0
+
+val m_insert : state0 -> z -> arg -> state0 * out0
+
+val m_append : state0 -> arg -> state0 * out0
+
+val m_extend : state0 -> arg list -> state0 * out0
+
+val m_remove : state0 -> arg -> state0 * out0
+
+val m_pop : state0 -> z option -> state0 * out0
+
+val m_new : arg list -> state0 * out0
+
+val m_contains : state0 -> arg -> bool
+
+val m_step : state0 -> op0 -> state0 * out0
+
+val m_str : state0 -> pstr
+
+val m_len : state0 -> z
+
+val m_run : state0 -> op0 list -> (state0 * out0) list
+
+val take_str : z list -> (pstr * z list) option
+
+val take_arg : z list -> (arg * z list) option
+
+val take_args : nat -> z list -> (arg list * z list) option
+
+val take_arglist : z list -> (arg list * z list) option
+
+val take_optz : z list -> (z option * z list) option
+
+val take_op : z list -> (op0 * z list) option
+
+val take_ops : nat -> z list -> op0 list option
+
+val enc_str : pstr -> z list
+
+val enc_item : item -> z list
+
+val enc_state : state0 -> z list
+
+val enc_out : out0 -> z list
+
+val enc_result : (state0 * out0) -> z list
+
 val run_args : z list -> z list
+
+val str_isspace : str -> bool
+
+val unwrap : expr -> expr
+
+val is_blank : expr -> bool
+
+val clean : expr list -> expr list
+
+val is_texexpr : expr -> bool
+
+val is_env_or_cmd : expr -> bool
+
+val is_strlike : expr -> bool
+
+val expr_contents : expr -> expr list
+
+val expr_all : expr -> expr list
+
+val edepth : expr -> nat
+
+type path = nat list
+
+type item0 = path * expr
+
+val wrap_from : path -> nat -> expr list -> item0 list
+
+val contents : item0 -> item0 list
+
+val children : item0 -> item0 list
+
+val node_all : item0 -> expr list option
+
+val parent_path : path -> path
+
+val node_getitem : item0 -> z -> item0 option
+
+val descendants_f : nat -> item0 -> item0 list
+
+val descendants : item0 -> item0 list
+
+val text_f : nat -> item0 -> item0 list
+
+val text : item0 -> item0 list
+
+type query =
+| QName of str
+| QList of str list
+
+val c_lbrace : n
+
+val c_lbracket : n
+
+val s_text : str
+
+val s_roottex : str
+
+val expr_name : expr -> str
+
+val expr_begin : expr -> str
+
+val expr_end : expr -> str
+
+val expr_args : expr -> expr list
+
+val expr_begin_args : expr -> str
+
+val query_has_brace : query -> bool
+
+val texexpr_match : query -> expr -> bool
+
+val texenv_match : query -> expr -> bool
+
+val match_item : query -> expr -> bool
+
+val find_all : query -> item0 -> item0 list
+
+val find0 : query -> item0 -> item0 option
+
+val count : query -> item0 -> nat
+
+val instance_attrs : str list
+
+val is_real_attr : str -> bool
+
+type attr_result =
+| AReal
+| AFound of item0 option
+
+val getattr : str -> item0 -> attr_result
+
+val enc_str0 : str -> z list
+
+val enc_path : path -> z list
+
+val class_code : expr -> z
+
+val epos : expr -> z
+
+val enc_expr : expr -> z list
+
+val enc_item0 : item0 -> z list
+
+val enc_list : ('a1 -> z list) -> 'a1 list -> z list
+
+val enc_opt_item : item0 option -> z list
+
+val enc_query : item0 -> query -> z list
+
+val enc_node : query list -> item0 -> z list
+
+val err_code : err -> z
+
+val take_str0 : z list -> str * z list
+
+val take_strs : nat -> z list -> str list * z list
+
+val take_queries : nat -> z list -> query list * z list
+
+val view_of_tree : query list -> expr -> z list
 
 val run_view : z list -> z list
 
-val run_edit : z list -> z list
+type eerr =
+| ETypeError0
+| EValueError0
+| EAssertionError
+| EIndexError0
+| EBadCase
+
+type 'a outcome =
+| Done of 'a
+| Raise of eerr
+
+val obind : 'a1 outcome -> ('a1 -> 'a2 outcome) -> 'a2 outcome
+
+type step0 =
+| SArg of nat
+| SBody of nat
+
+type path0 = step0 list
+
+val step_eqb : step0 -> step0 -> bool
+
+val path_eqb : path0 -> path0 -> bool
+
+val is_node : expr -> bool
+
+val args_of : expr -> expr list
+
+val body_of : expr -> expr list
+
+val set_body : expr -> expr list -> expr
+
+val set_args_of : expr -> expr list -> expr
+
+val subst_nth : nat -> 'a1 -> 'a1 list -> 'a1 list
+
+val splice : nat -> nat -> 'a1 list -> 'a1 list -> 'a1 list
+
+val child : expr -> step0 -> expr option
+
+val set_child : expr -> step0 -> expr -> expr
+
+val get : expr -> path0 -> expr option
+
+val put : expr -> path0 -> expr -> expr option
+
+val put_o : expr -> path0 -> expr -> expr outcome
+
+val is_ws_str : str -> bool
+
+val is_ws_item : expr -> bool
+
+val number_from : nat -> 'a1 list -> (nat * 'a1) list
+
+val cview : expr -> ((path0 * nat) * expr) list
+
+val resolve : expr -> path0 -> nat list -> (path0 * expr) option
+
+val split_node_path : path0 -> (path0 * nat) option
+
+val drop_args : path0 -> path0
+
+val nav_parent : path0 -> path0
+
+val norm_index : nat -> z -> nat
+
+val list_insert : z -> 'a1 -> 'a1 list -> 'a1 list
+
+val insert_seq : z -> 'a1 list -> 'a1 list -> 'a1 list
+
+val index_of : ('a1 -> bool) -> 'a1 list -> nat option
+
+val supports : expr -> bool
+
+val eq_expr_item : expr -> expr -> bool
+
+val eq_node_item : expr -> expr -> bool
+
+val expr_remove :
+  (expr -> expr -> bool) -> path0 -> expr -> path0 -> nat -> expr ->
+  (nat * expr) outcome
+
+val expr_insert : expr -> z -> expr list -> expr outcome
+
+val expr_append : expr -> expr list -> expr outcome
+
+val number_args : path0 -> nat -> expr list -> (path0 * expr) list
+
+val holders : path0 -> expr -> (path0 * expr) list
+
+val holds_object : path0 -> (path0 * expr) -> bool
+
+val delete_via : expr -> path0 -> path0 -> nat -> expr outcome
+
+val delete : expr -> path0 -> nat -> expr outcome
+
+val remove_via : expr -> path0 -> path0 -> nat -> expr outcome
+
+val remove : expr -> path0 -> nat -> expr outcome
+
+val replace_in :
+  expr -> path0 -> expr -> path0 -> nat -> expr -> expr list -> expr outcome
+
+val replace_via : expr -> path0 -> path0 -> nat -> expr list -> expr outcome
+
+val replace_with : expr -> path0 -> nat -> expr list -> expr outcome
+
+val insert : expr -> path0 -> z -> expr list -> expr outcome
+
+val append : expr -> path0 -> expr list -> expr outcome
+
+val copy : expr -> expr
+
+val rename : expr -> str -> expr outcome
+
+val set_name : expr -> path0 -> str -> expr outcome
+
+val text_of : str -> expr
+
+val restring : expr -> str -> expr outcome
+
+val set_string : expr -> path0 -> str -> expr outcome
+
+val select : 'a1 list -> nat list -> 'a1 list option
+
+val nodup_nat : nat list -> bool
+
+val reargs : expr -> nat list -> expr outcome
+
+val set_args : expr -> path0 -> nat list -> expr outcome
+
+val args_insert : expr -> path0 -> z -> groupkind -> str -> expr outcome
+
+type zs = z list
+
+val take : nat -> zs -> (zs * zs) option
+
+val dec_list : zs -> (zs * zs) option
+
+val to_str : zs -> str
+
+val to_nats : zs -> nat list
+
+val split_neg1 : zs -> zs * zs
+
+val dec_mats : expr -> nat -> zs -> (expr list * zs) option
+
+val dec_matlist : expr -> zs -> (expr list * zs) option
+
+val locate : expr -> nat list -> ((path0 * (path0 * nat)) * expr) option
+
+val exec_op : expr -> expr -> zs -> (expr outcome * zs) option
+
+val code_of : eerr -> z
+
+val emit : z -> expr -> zs
+
+val run_loop : nat -> expr -> expr -> zs -> zs
+
+val run_edit : zs -> zs
